@@ -1,7 +1,7 @@
 (* C05 -- property theorems only.  Proofs live in C05/Proofs*.v. *)
 From Coq Require Import NArith List Bool Permutation.
 From DV Require Import Base.Outcome Base.Bytes Base.Names Base.PName
-  C05.Schema C05.Gen C05.Model C05.OptModel C05.SvcModel C05.SvcBuf C05.TxtModel C05.ProofsA C05.ProofsB C05.ProofsC C05.ProofsD C05.ProofsE C05.ProofsF C05.ProofsG C05.ProofsH C05.Proofs C05.ProofsI C05.ProofsJ C05.ProofsK C05.ProofsL C05.ProofsM C05.ProofsN C05.ProofsO C05.ProofsP.
+  C05.Schema C05.Gen C05.Model C05.OptModel C05.SvcModel C05.SvcBuf C05.TxtModel C05.TxtLimit C05.ProofsA C05.ProofsB C05.ProofsC C05.ProofsD C05.ProofsE C05.ProofsF C05.ProofsG C05.ProofsH C05.Proofs C05.ProofsI C05.ProofsJ C05.ProofsK C05.ProofsL C05.ProofsM C05.ProofsN C05.ProofsO C05.ProofsP C05.ProofsQ.
 Import ListNotations.
 Local Open Scope N_scope.
 
@@ -364,6 +364,26 @@ Theorem C05_txt_build_wf : forall ops, Forall op_ok ops -> Forall (fun b => wf_b
   wf_fval true FCharStrs (VStrs (txt_build ops)) = true.
 Proof. exact txt_build_wf. Qed.
 Print Assumptions C05_txt_build_wf.
+
+(* TxtBuilder with its RDATA size check (every append is refused once the octets
+   written would exceed 65535): what the builder hands out is what the unchecked
+   builder makes and its RDATA is at most 65535 octets, so it has an RDLENGTH;
+   and whole character strings that fit -- up to exactly 65535 octets -- are
+   never refused *)
+Theorem C05_txt_build_chk_sound : forall ops l, txt_build_chk ops = Some l ->
+  l = txt_build ops /\ N.of_nat (length (txt_wire l)) <= RDATA_MAX.
+Proof. exact txt_build_chk_sound. Qed.
+Print Assumptions C05_txt_build_chk_sound.
+
+Theorem C05_txt_limit_src_agrees :
+  Gen.txt_limit_src = RDATA_MAX /\ Gen.txt_charstr_check_counts_length_octet = true.
+Proof. exact txt_limit_src_agrees. Qed.
+Print Assumptions C05_txt_limit_src_agrees.
+
+Theorem C05_txt_build_chk_charstrs : forall l, l <> [] -> strs_size l <= RDATA_MAX ->
+  txt_build_chk (map TCharStr l) = Some l.
+Proof. exact txt_build_chk_charstrs. Qed.
+Print Assumptions C05_txt_build_chk_charstrs.
 
 (* SvcParamsBuilder::push_raw's scan over the values in PHYSICAL (push) order:
    it is independent of that order (keys distinct), ... *)
